@@ -52,6 +52,8 @@ def header(d, name, ind):
         return ["{}{} {}({}a, b=1, *args, **kwargs):".format(ind, kw, name, self_)]
     if sig == "kwonly":
         return ["{}{} {}({}a, *, b='x', c=3):".format(ind, kw, name, self_)]
+    if sig == "odd_defaults":
+        return ["{}{} {}({}a, b=\"    \", c='  -  ', d=(1, [2]), *, e=\"x    y: z\", f={{'k': ')'}}):".format(ind, kw, name, self_)]
     if sig == "multiline":
         return ["{}{} {}(".format(ind, kw, name), "{}    {}a,".format(ind, self_), "{}    b='x',".format(ind), "{}):".format(ind)]
     if sig == "multiline_comment":
